@@ -14,8 +14,10 @@
   about them are kernel-evaluated checks.
 -/
 import KmipModel.Lemmas.PlanLemmas
+import KmipModel.Lemmas.DispatchLemmas
 import KmipModel.Props.C02
 import KmipModel.Gen.Schema
+import KmipModel.Pinned.AttrSpec
 namespace Kmip.C06
 open Kmip
 
@@ -87,6 +89,27 @@ theorem gen_attrs_cover_all_names :
     Gen.attrs.all (fun p => Gen.allAttrNames.contains p.1) = true ∧
     (Gen.attrs.map (·.1)).Nodup ∧ Gen.allAttrNames.Nodup := by decide +kernel
 
+/-- 3e'. **the registered value types are the SPECIFIED ones**: the attribute table regenerated from the Go
+    registry equals the pinned table of KMIP 1.4 section 3 — for every name the TTLV item type of the value and,
+    for structures / enumerations / bit masks, which one (by its tag) — in both directions, same number of rows.
+    Registering Comment as a byte string, PKCS#12 Friendly Name as an integer or Cryptographic Domain Parameters
+    as another structure fails here. -/
+theorem gen_attrs_match_spec : attrsMatchSpec Pinned.attrSpec Gen.schema = true := by decide +kernel
+
+/-- 3e''. what 3e' means, specification ⇒ code: a standard (non-custom) attribute name listed by the
+    specification with TTLV type `t` (and structure / enumeration `r`) decodes to a dynamic type written with
+    exactly that type. -/
+theorem gen_attribute_has_specified_type (name : Bytes) (t r : Nat)
+    (hc : ¬ (name.take 2 = [0x78, 0x2D] ∨ name.take 2 = [0x79, 0x2D]))
+    (hq : (packName name, t, r) ∈ Pinned.attrSpec) :
+    Gen.schema.dynSpec (Gen.schema.attrDyn name) = (t, r) :=
+  attrDyn_has_specified_type _ _ gen_attrs_match_spec name t r hc hq
+
+/-- … and code ⇒ specification: every registered name is a row of the specification. -/
+theorem gen_registered_attr_is_specified (p : Nat × Nat) (hp : p ∈ Gen.attrs) :
+    (p.1, (Gen.schema.dynSpec p.2).1, (Gen.schema.dynSpec p.2).2) ∈ Pinned.attrSpec :=
+  registered_attr_is_specified _ _ gen_attrs_match_spec p hp
+
 /-- 3f. the extractor met no type it could not classify. -/
 theorem gen_extraction_clean : Gen.extractionProblems = 0 := by decide
 
@@ -109,6 +132,59 @@ theorem gen_request_item_payload (fuel id tag : Nat) (c : Cur) (ver : Option Ver
   rcases payloadDyn_total Gen.schema op.asInt.toNat false with ⟨rq, rs, hm, he⟩ | ⟨hn, he⟩
   · left; exact ⟨rs, by rw [he]; exact hm⟩
   · right; exact ⟨hn, he⟩
+
+/-- 3i. **the decoders are wired**: in the regenerated schema the BatchItem field of Request/ResponseMessage is
+    a slice of the struct decoded by the request / response batch item codec; an interface-typed field occurs
+    only in structs decoded by one of the seven dispatching codecs, and each of them decodes some struct.
+    (Deleting a `TagDecodeTTLV` method, or adding a struct with a bare `Object` / `OperationPayload` field,
+    fails here.) -/
+theorem gen_messages_wired :
+    Gen.schema.messageWired Gen.requestMessageDyn Cust.requestBatchItem = true ∧
+    Gen.schema.messageWired Gen.responseMessageDyn Cust.responseBatchItem = true := by decide +kernel
+theorem gen_dispatch_wired : Gen.schema.dispatchWired = true := by decide +kernel
+
+/-- 3j. **composed up to `ttlv.UnmarshalTTLV`**: whatever bytes decode into a RequestMessage, the result is
+    `&{header, [items…]}` and EVERY batch item carries, behind its payload interface, the request type
+    registered for its operation code — or the opaque type when the code is not registered. -/
+theorem gen_unmarshal_request_dispatch (bs : Bytes) (v : Val)
+    (h : unmarshal Gen.schema Gen.requestMessageDyn 0 bs = .ok v) :
+    ∃ hdr items, v = .ptr (some (.struct [hdr, .list items])) ∧
+      ∀ it ∈ items, ∃ op bid d x me, it = .struct [op, bid, .iface (some (d, x)), me] ∧
+        d = Gen.schema.payloadDyn op.asInt.toNat false ∧
+        ((∃ rs, (op.asInt.toNat, d, rs) ∈ Gen.ops) ∨
+         ((∀ p ∈ Gen.ops, p.1 ≠ op.asInt.toNat) ∧ d = Gen.schema.unknownPayloadDyn)) := by
+  obtain ⟨hdr, items, rfl, hall⟩ := unmarshal_message_items _ _ _ gen_messages_wired.1 0 bs v h
+  refine ⟨hdr, items, rfl, ?_⟩
+  intro it hit
+  obtain ⟨fuel, id, tg, c, ver, st, hd⟩ := hall it hit
+  obtain ⟨op, bid, x, me, rfl⟩ := decCustom_requestBatchItem hd
+  refine ⟨op, bid, _, x, me, rfl, rfl, ?_⟩
+  rcases payloadDyn_total Gen.schema op.asInt.toNat false with ⟨rq, rs, hm, he⟩ | ⟨hn, he⟩
+  · left; exact ⟨rs, by rw [he]; exact hm⟩
+  · right; exact ⟨hn, he⟩
+
+/-- 3k. the same for responses: every batch item has no payload, or the response type registered for its
+    operation code (the opaque type when the code is not registered). -/
+theorem gen_unmarshal_response_dispatch (bs : Bytes) (v : Val)
+    (h : unmarshal Gen.schema Gen.responseMessageDyn 0 bs = .ok v) :
+    ∃ hdr items, v = .ptr (some (.struct [hdr, .list items])) ∧
+      ∀ it ∈ items, ∃ op bid rst rs msg acv pl me, it = .struct [op, bid, rst, rs, msg, acv, pl, me] ∧
+        (pl = .iface none ∨ (0 < op.asInt ∧ ∃ d x, pl = .iface (some (d, x)) ∧
+          d = Gen.schema.payloadDyn op.asInt.toNat true ∧
+          ((∃ rq, (op.asInt.toNat, rq, d) ∈ Gen.ops) ∨
+           ((∀ p ∈ Gen.ops, p.1 ≠ op.asInt.toNat) ∧ d = Gen.schema.unknownPayloadDyn)))) := by
+  obtain ⟨hdr, items, rfl, hall⟩ := unmarshal_message_items _ _ _ gen_messages_wired.2 0 bs v h
+  refine ⟨hdr, items, rfl, ?_⟩
+  intro it hit
+  obtain ⟨fuel, id, tg, c, ver, st, hd⟩ := hall it hit
+  obtain ⟨op, bid, rst, rs, msg, acv, pl, me, rfl, hpl⟩ := decCustom_responseBatchItem hd
+  refine ⟨op, bid, rst, rs, msg, acv, pl, me, rfl, ?_⟩
+  rcases hpl with hnone | ⟨hpos, x, rfl⟩
+  · exact Or.inl hnone
+  · refine Or.inr ⟨hpos, _, x, rfl, rfl, ?_⟩
+    rcases payloadDyn_total Gen.schema op.asInt.toNat true with ⟨rq, rs', hm, he⟩ | ⟨hn, he⟩
+    · left; exact ⟨rq, by rw [he]; exact hm⟩
+    · right; exact ⟨hn, he⟩
 
 /-! ### 4 — managed objects -/
 
@@ -159,6 +235,14 @@ theorem object_unknown_type_errors (S : Schema) (fuel id tag : Nat) (c : Cur) (v
     exact ⟨ot, rfl, by rw [hd]; exact fun h => nomatch h⟩
   · obtain ⟨ot, _, _, d, _, rfl, hd⟩ := decCustom_exportResponse h
     exact ⟨ot, rfl, by rw [hd]; exact fun h => nomatch h⟩
+
+/-- 4e'. Import request: without an "Object Type" attribute holding an ObjectType, or with one naming an
+    unregistered type, there is no value. -/
+theorem import_unknown_type_errors (S : Schema) (fuel id tag : Nat) (c : Cur) (ver : Option Ver)
+    (v : Val) (st : DecSt) (h : decCustom S (fuel + 1) Cust.importRequest id tag c ver = .ok (v, st)) :
+    ∃ ot, importObjectType S (v.field 3) = some ot ∧ S.objectDyn ot ≠ none := by
+  obtain ⟨_, _, _, attrs, ot, d, _, rfl, hot, hd⟩ := decCustom_importRequest h
+  exact ⟨ot, hot, by rw [hd]; exact fun h => nomatch h⟩
 
 /-- 4f. `objectDyn` is the table lookup: a hit is a table entry. -/
 theorem objectDyn_is_registered (S : Schema) (ot d : Nat) (h : S.objectDyn ot = some d) :
@@ -236,32 +320,58 @@ theorem unknown_attribute_value_reencode (S : Schema) (t : Item) (h : t.InRange)
       encK S 1 .any t.tag (.any (some t)) ver = .ok ([t], ver) :=
   ⟨decK_any_enc S t h fuel hf ver rs, encK_any S 0 t ver⟩
 
-/-! ### non-vacuity -/
+/-! ### non-vacuity
 
-/-- 27 operations, 9 object types, 50 attribute names. -/
-example : Gen.ops.length = 27 ∧ Gen.objects.length = 9 ∧ Gen.attrs.length = 50 := by decide +kernel
+  No count and no "unused" code is hard-coded: an operation / object type that is NOT registered is computed
+  from the regenerated tables, so that a legitimate extension of the library (one more operation, attribute,
+  object type) does not break these examples. -/
 
-/-- Get (0xA) is registered, 0x7FFFFFFF and 2^32 + 5 are not: they fall back to the opaque payload. -/
-example : Gen.schema.payloadDyn 0xA false ≠ Gen.schema.unknownPayloadDyn ∧
-    Gen.schema.payloadDyn 0x7FFFFFFF true = Gen.schema.unknownPayloadDyn ∧
-    Gen.schema.payloadDyn (2 ^ 32 + 5) false = Gen.schema.unknownPayloadDyn := by decide +kernel
+/-- the tables are not empty. -/
+example : Gen.ops.length ≥ 1 ∧ Gen.objects.length ≥ 1 ∧ Gen.attrs.length ≥ 1 ∧
+    Pinned.attrSpec.length = Gen.attrs.length := by decide +kernel
 
-/-- object type 2 (SymmetricKey) is registered, 10 and 0 are not. -/
-example : (Gen.schema.objectDyn 2).isSome = true ∧ Gen.schema.objectDyn 10 = none ∧
-    Gen.schema.objectDyn 0 = none := by decide +kernel
+/-- an operation code / object type the library does not register (one more than the largest registered). -/
+def freshOp : Nat := (Gen.ops.map (·.1)).foldl max 0 + 1
+def freshObject : Nat := (Gen.objects.map (·.1)).foldl max 0 + 1
+
+/-- every registered operation maps to its own pair, never to the opaque type; the fresh code, a code beyond
+    32 bits and code 0 fall back to the opaque payload in both directions. -/
+example : Gen.ops.all (fun p => Gen.schema.payloadDyn p.1 false == p.2.1 &&
+      Gen.schema.payloadDyn p.1 true == p.2.2 && p.2.1 != Gen.schema.unknownPayloadDyn &&
+      p.2.2 != Gen.schema.unknownPayloadDyn) = true ∧
+    Gen.schema.payloadDyn freshOp true = Gen.schema.unknownPayloadDyn ∧
+    Gen.schema.payloadDyn freshOp false = Gen.schema.unknownPayloadDyn ∧
+    Gen.schema.payloadDyn (2 ^ 32 + 5) false = Gen.schema.unknownPayloadDyn ∧
+    Gen.schema.payloadDyn 0 false = Gen.schema.unknownPayloadDyn := by decide +kernel
+
+/-- every registered object type is found, the fresh one and 0 are not. -/
+example : Gen.objects.all (fun p => Gen.schema.objectDyn p.1 == some p.2) = true ∧
+    Gen.schema.objectDyn freshObject = none ∧ Gen.schema.objectDyn 0 = none := by decide +kernel
 
 /-- "Name" is a standard attribute (a structure), "x-id" and "Nom" are opaque. -/
 example : Gen.schema.attrDyn [0x4E, 0x61, 0x6D, 0x65] ≠ Gen.schema.valueDyn ∧
     Gen.schema.attrDyn [0x78, 0x2D, 0x69, 0x64] = Gen.schema.valueDyn ∧
     Gen.schema.attrDyn [0x4E, 0x6F, 0x6D] = Gen.schema.valueDyn := by decide +kernel
 
-/-- a request batch item with the unregistered operation 0x30 and a payload holding one Integer:
+/-- 3e'' on concrete names: Comment is a Text String, Cryptographic Usage Mask an Integer holding the
+    Cryptographic Usage Mask bits, Name the Name structure; and the comparison with the pinned table does
+    detect a changed type (Comment as a Byte String), a dropped and an added row. -/
+example : Gen.schema.dynSpec (Gen.schema.attrDyn [0x43, 0x6F, 0x6D, 0x6D, 0x65, 0x6E, 0x74]) = (7, 0) ∧
+    Gen.schema.dynSpec (Gen.schema.attrDyn [0x4E, 0x61, 0x6D, 0x65]) = (1, 0x420053) := by decide +kernel
+example : attrsMatchSpec (Pinned.attrSpec.map fun q => if q.1 == 0x1436F6D6D656E74 then (q.1, 8, 0) else q)
+    Gen.schema = false := by decide +kernel
+example : attrsMatchSpec Pinned.attrSpec.tail Gen.schema = false := by decide +kernel
+example : attrsMatchSpec ((0x14E6F6D, 7, 0) :: Pinned.attrSpec) Gen.schema = false := by decide +kernel
+
+/-- the codecs the examples below look up do exist in the schema (a missing codec would make the ids below
+    default to 0 and the examples fail for a misleading reason). -/
+example : (Gen.schema.structs.findIdx? (fun d => d.custom == Cust.requestBatchItem)).isSome = true ∧
+    (Gen.schema.structs.findIdx? (fun d => d.custom == Cust.getResponse)).isSome = true := by decide +kernel
+
+/-- a request batch item with the unregistered operation `freshOp` and a payload holding one Integer:
     it decodes (hypothesis of 1a satisfiable), into the opaque type. -/
 def unknownOpItem : Bytes :=
-  [0x42, 0x00, 0x0F, 0x01, 0, 0, 0, 0x28,
-     0x42, 0x00, 0x5C, 0x05, 0, 0, 0, 4, 0, 0, 0, 0x30, 0, 0, 0, 0,
-     0x42, 0x00, 0x79, 0x01, 0, 0, 0, 0x10,
-       0x42, 0x00, 0x20, 0x02, 0, 0, 0, 4, 0, 0, 0, 7, 0, 0, 0, 0]
+  enc (.struct T.batchItem [.enum T.operation freshOp, .struct T.requestPayload [.int 0x420020 7]])
 
 def requestBatchItemId : Nat :=
   (Gen.schema.structs.findIdx? (fun d => d.custom == Cust.requestBatchItem)).getD 0
@@ -274,17 +384,30 @@ def decodedUnknownOp : Option (Nat × Nat × Nat × Int) :=
     some (op.toNat, d, t, x)
   | _ => none
 
-example : decodedUnknownOp = some (0x30, Gen.schema.unknownPayloadDyn, 0x420020, 7) := by
+example : decodedUnknownOp = some (freshOp, Gen.schema.unknownPayloadDyn, 0x420020, 7) := by
   decide +kernel
 
-/-- a Get response announcing the unregistered object type 10 is an error. -/
+/-- 3j on bytes: a whole RequestMessage (version 1.4, one item with the unregistered operation) decodes through
+    `unmarshal` and its item holds the opaque type. -/
+def unknownOpMessage : Bytes :=
+  enc (.struct 0x420078 [
+    .struct 0x420077 [.struct 0x420069 [.int 0x42006A 1, .int 0x42006B 4], .int 0x42000D 1],
+    .struct T.batchItem [.enum T.operation freshOp, .struct T.requestPayload [.int 0x420020 7]]])
+
+def decodedMessageDyn : Option (Nat × Nat) :=
+  match unmarshal Gen.schema Gen.requestMessageDyn 0 unknownOpMessage with
+  | .ok (.ptr (some (.struct [_, .list [.struct [.int op, _, .iface (some (d, _)), _]]]))) => some (op.toNat, d)
+  | _ => none
+
+set_option maxRecDepth 100000 in
+example : decodedMessageDyn = some (freshOp, Gen.schema.unknownPayloadDyn) := by decide +kernel
+
+/-- a Get response announcing the unregistered object type `freshObject` is an error. -/
 def getResponseId : Nat :=
   (Gen.schema.structs.findIdx? (fun d => d.custom == Cust.getResponse)).getD 0
 def badObjectType : Bytes :=
-  [0x42, 0x00, 0x7C, 0x01, 0, 0, 0, 0x30,
-     0x42, 0x00, 0x57, 0x05, 0, 0, 0, 4, 0, 0, 0, 10, 0, 0, 0, 0,
-     0x42, 0x00, 0x94, 0x07, 0, 0, 0, 1, 0x31, 0, 0, 0, 0, 0, 0, 0,
-     0x42, 0x00, 0x8F, 0x01, 0, 0, 0, 0]
+  enc (.struct T.responsePayload [.enum T.objectType freshObject, .text T.uniqueIdentifier [0x31],
+    .struct 0x42008F []])
 example : (do
     let c ← Cur.start badObjectType
     decCustom Gen.schema 64 Cust.getResponse getResponseId T.responsePayload c none).isErr = true := by
